@@ -82,3 +82,15 @@ Proof.
   2:{ intros a' _. rewrite <- zr_scale. apply zr_ext. intros b' Hb'. unfold kron. rewrite !flat_div, !flat_mod by lia. reflexivity. }
   rewrite Hs2 by lia. rewrite (zr_ext 0 n1 _ (Pi1 a)) by (intros; ring). apply Hs1; lia.
 Qed.
+
+(** the product of stationary distributions is stationary for the dimension-by-dimension transition (hence, by kron_forward_lemma, for the Kronecker
+    product on the flattened state): both formulations have the same steady-state exogenous distribution *)
+Theorem product_stationary_lemma n1 n2 Pi1 Pi2 (p1 p2 : Z -> Z) :
+  (forall z1', zs 0 n1 (fun z1 => Pi1 z1 z1' * p1 z1) = p1 z1') -> (forall z2', zs 0 n2 (fun z2 => Pi2 z2 z2' * p2 z2) = p2 z2') ->
+  forall z1' z2', fwd_seq n1 n2 Pi1 Pi2 (fun a b => p1 a * p2 b) z1' z2' = p1 z1' * p2 z2'.
+Proof.
+  intros H1 H2 z1' z2'. unfold fwd_seq, fwd_dim1, fwd_dim0.
+  rewrite (zr_ext 0 n2 _ (fun b => p1 z1' * (Pi2 b z2' * p2 b))).
+  2:{ intros b _. rewrite (zr_ext 0 n1 _ (fun a => p2 b * (Pi1 a z1' * p1 a))) by (intros; ring). rewrite zr_scale, H1. ring. }
+  rewrite zr_scale, H2. reflexivity.
+Qed.
